@@ -483,7 +483,7 @@ def coarse_index_class(kinds):
     or a slice starts past 0, and the kind of the batch index."""
     K = lambda k: "int" if k.endswith("int") else ("tensor" if k.endswith("tensor") else "slice")  # noqa: E731
     shifted = any(k in ("-int", "-tensor", "slice+") for k in kinds[-2:])
-    b = f"|batch:{K(kinds[0])}" if len(kinds) > 2 else ""
+    b = f"|batch:{K(kinds[0])}" if len(kinds) > 2 and K(kinds[0]) != "slice" else ""
     return f"{K(kinds[-2])}x{K(kinds[-1])}|{'negative-or-shifted' if shifted else 'plain'}{b}"
 
 
